@@ -7,7 +7,9 @@ import (
 	"fmt"
 	"io"
 	"net/http"
+	"net/http/httptest"
 	"strings"
+	"sync"
 	"time"
 
 	"github.com/cenkalti/backoff"
@@ -22,16 +24,34 @@ type verifAttempt struct {
 	status              int  // 0: no response (transport error)
 }
 
-// verifTransport stands where http.Transport stands (Send's SendTransport
-// seam). It describes how the real transport puts a request on the wire:
-// the body is read to EOF; with a declared ContentLength > 0 fewer bytes are a
-// transport error after the short body was already written ("http:
-// ContentLength=N with Body length M"), with an undeclared length (opaque
-// reader) whatever is read goes out chunked. The answer is symbolic: a
-// transport error or any status code.
-type verifTransport struct {
+// verifWire is the log of attempts, filled by the model transport under the
+// engine and by a real httptest server natively.
+type verifWire struct {
+	mu       sync.Mutex
 	attempts []verifAttempt
 }
+
+// answer draws the symbolic server behaviour for one attempt: no response
+// (connection dropped) or a final status code. 1xx codes are interim responses
+// in HTTP, never the final status of an exchange, and are left out.
+func (w *verifWire) answer(a verifAttempt) (status int) {
+	if !verif.Bool("transport_error") {
+		a.status = verif.IntRange("status", 200, 599)
+	}
+	w.attempts = append(w.attempts, a)
+	return a.status
+}
+
+// verifTransport stands where http.Transport stands (Send's SendTransport
+// seam) when running under the engine. It describes how the real transport
+// (one fresh connection per attempt, as with DisableKeepAlives) puts a request
+// on the wire: the body is read to EOF; with a declared ContentLength > 0 a
+// shorter body aborts the attempt with "http: ContentLength=N with Body length
+// M"; with an undeclared length (opaque reader) whatever is read goes out
+// chunked. Natively the same harness talks to a real httptest server through
+// the real http.Transport (verifNativeRT below), so every replay checks this
+// description against net/http.
+type verifTransport struct{ wire *verifWire }
 
 type verifOpaqueReader struct{ r io.Reader }
 
@@ -45,17 +65,56 @@ func (t *verifTransport) RoundTrip(req *http.Request) (*http.Response, error) {
 		a.body = b
 		if err != nil || (req.ContentLength > 0 && int64(len(b)) != req.ContentLength) {
 			a.complete = false
-			t.attempts = append(t.attempts, a)
+			t.wire.attempts = append(t.wire.attempts, a)
 			return nil, fmt.Errorf("http: ContentLength=%d with Body length %d", req.ContentLength, len(b))
 		}
 	}
-	if verif.Bool("transport_error") {
-		t.attempts = append(t.attempts, a)
-		return nil, errors.New("read: connection reset by peer")
+	status := t.wire.answer(a)
+	if status == 0 {
+		return nil, errors.New("EOF")
 	}
-	a.status = verif.IntRange("status", 100, 599)
-	t.attempts = append(t.attempts, a)
-	return &http.Response{StatusCode: a.status, Body: io.NopCloser(bytes.NewReader(nil)), Header: http.Header{}, Request: req}, nil
+	return &http.Response{StatusCode: status, Body: io.NopCloser(bytes.NewReader(nil)), Header: http.Header{}, Request: req}, nil
+}
+
+// verifNativeRT wraps the real transport natively: an attempt that the real
+// transport abandons before the server sees a request is logged as an attempt
+// whose body was not delivered.
+type verifNativeRT struct {
+	wire  *verifWire
+	inner http.RoundTripper
+}
+
+func (t *verifNativeRT) RoundTrip(req *http.Request) (*http.Response, error) {
+	t.wire.mu.Lock()
+	before := len(t.wire.attempts)
+	t.wire.mu.Unlock()
+	hadBody := req.Body != nil && req.Body != http.NoBody
+	a := verifAttempt{method: req.Method, url: req.URL.String(), header: req.Header.Get("X-Verif"), complete: !hadBody}
+	resp, err := t.inner.RoundTrip(req)
+	t.wire.mu.Lock()
+	if len(t.wire.attempts) == before {
+		t.wire.attempts = append(t.wire.attempts, a)
+	}
+	t.wire.mu.Unlock()
+	return resp, err
+}
+
+func (w *verifWire) ServeHTTP(rw http.ResponseWriter, r *http.Request) {
+	b, err := io.ReadAll(r.Body)
+	w.mu.Lock()
+	defer w.mu.Unlock()
+	if len(b) == 0 {
+		b = nil
+	}
+	a := verifAttempt{method: r.Method, url: "http://" + r.Host + r.URL.String(), header: r.Header.Get("X-Verif"), body: b, complete: err == nil}
+	status := w.answer(a)
+	if status == 0 {
+		if c, _, err := rw.(http.Hijacker).Hijack(); err == nil {
+			c.Close()
+		}
+		return
+	}
+	rw.WriteHeader(status)
 }
 
 const (
@@ -91,7 +150,15 @@ func verifSameBytes(a, b []byte) bool {
 // code configuration and retry budget, and checks the statement on the
 // attempts seen by the transport.
 func verifSend(withBody, withRetry bool) {
-	tr := &verifTransport{}
+	wire := &verifWire{}
+	rawurl := "http://origin:80/x/y?z=1"
+	var tr http.RoundTripper = &verifTransport{wire}
+	if !verif.Symbolic() {
+		srv := httptest.NewServer(wire)
+		defer srv.Close()
+		rawurl = srv.URL + "/x/y?z=1"
+		tr = &verifNativeRT{wire, &http.Transport{DisableKeepAlives: true}}
+	}
 	method := []string{"POST", "GET", "PUT", "PATCH", "DELETE", "HEAD"}[verif.Choice("method", verif.Bound("methods", 1, 6))]
 	hdr := verif.String("header", 2)
 	for i := 0; i < len(hdr); i++ { // visible ASCII: a legal header value
@@ -148,10 +215,9 @@ func verifSend(withBody, withRetry bool) {
 		opts = append(opts, SendRetry(ropts...))
 	}
 
-	const rawurl = "http://origin:80/x/y?z=1"
 	resp, err := Send(method, rawurl, opts...)
 
-	n := len(tr.attempts)
+	n := len(wire.attempts)
 	verif.Assert("at-least-one-attempt", n >= 1)
 	verif.Assert("attempts-bounded-by-backoff-budget", n <= budget+1)
 	if withRetry {
@@ -160,7 +226,7 @@ func verifSend(withBody, withRetry bool) {
 	verif.Cover("success", err == nil)
 	verif.Cover("status-error", err != nil && !IsNetworkError(err))
 	verif.Cover("network-error", IsNetworkError(err))
-	last := tr.attempts[n-1]
+	last := wire.attempts[n-1]
 	if err == nil {
 		verif.Assert("success-is-the-last-attempts-accepted-status",
 			verif.And(resp != nil, verifIn(last.status, accepted), resp.StatusCode == last.status))
@@ -172,7 +238,7 @@ func verifSend(withBody, withRetry bool) {
 		verif.Assert("status-error-carries-last-status",
 			verif.And(ok, serr.Status == last.status, !verifIn(last.status, accepted)))
 	}
-	for i, a := range tr.attempts {
+	for i, a := range wire.attempts {
 		verif.Assert("same-method", a.method == method)
 		verif.Assert("same-url", a.url == rawurl)
 		verif.Assert("same-header", a.header == hdr)
